@@ -14,7 +14,10 @@ G.1  (also: a key built from `id(obj)` is never sound -- identities are reused a
 G.2  a class-level mutable container (not a pydantic field) that a method fills through `self.<name>[...] = ...` /
      `self.<name>.append(...)` without the constructor rebinding `self.<name>` first is shared by all instances.
 
-Both rules have an expected count of zero on the tree; the fixture fixtures/shared_state.py is analysed on every run and
+G.3  a function must not change its arguments in place (stores into, mutator calls on, deletions from anything reached from
+     a parameter), except the sites that do so by design on the reference tree (KNOWN_INPUT_MUTATIONS).
+
+All three have an expected count of zero on the tree; the fixture fixtures/shared_state.py is analysed on every run and
 both must fire there (a rule that cannot fire passes vacuously forever).
 """
 from __future__ import annotations
@@ -213,6 +216,42 @@ def _scan(index: Index, summ: Summaries, relfiles: List[str], scope=None):
     return findings, n_funcs
 
 
+# parameter mutations that exist on the reference tree by design (frozen; one reason each)
+KNOWN_INPUT_MUTATIONS = {
+    ("soundevent.arrays.dimensions:set_dim_attrs", "array"): "documented to update the coordinate's attrs in place",
+    ("soundevent.arrays.operations:set_value_at_pos", "array"): "documented to write into the array it is given",
+    ("soundevent.data.features:Feature.handle_deprecated_name", "values"): "pydantic before-validator rewriting its raw input dict",
+    ("soundevent.data.tags:Tag.handle_deprecated_key", "values"): "pydantic before-validator rewriting its raw input dict",
+}
+
+
+def _root(t):
+    while t[0] in ("attr", "sub"):
+        t = t[1]
+    return t
+
+
+def _input_mutations(qual: str, s: Summary):
+    """G.3: stores into / mutator calls on / deletions from something reached from a parameter (other than self)"""
+    out = []
+    for e in s.events:
+        tgt = None
+        if e.kind == "store":
+            tgt = e.term[1]
+        elif e.kind == "call" and e.term[1][0] == "attr" and e.term[1][2] in MUTATORS:
+            tgt = e.term[1][1]
+        elif e.kind == "delete":
+            tgt = e.term
+        if tgt is None:
+            continue
+        r = _root(tgt)
+        if r[0] == "param" and r[1] not in ("self", "cls") and tgt != r and not r[1].startswith("*"):
+            if (qual, r[1]) in KNOWN_INPUT_MUTATIONS:
+                continue
+            out.append((e, r[1], tgt))
+    return out
+
+
 _FIXTURE_OK = None
 
 
@@ -224,8 +263,10 @@ def _fixture_fires() -> bool:
         rel = os.path.join("src", "soundevent", "_shared_state_fixture.py")
         try:
             ix = Index(_ROOT[0], {rel: src})
-            f, _ = _scan(ix, Summaries(ix), [rel], None)
-            _FIXTURE_OK = {r for r, *_ in f} == {"G.1", "G.2"}
+            sms = Summaries(ix)
+            f, _ = _scan(ix, sms, [rel], None)
+            g3 = _input_mutations("soundevent._shared_state_fixture:relabel", sms.of_func("soundevent._shared_state_fixture", "relabel"))
+            _FIXTURE_OK = {r for r, *_ in f} == {"G.1", "G.2"} and len(g3) == 1
         except Exception:  # noqa: BLE001
             _FIXTURE_OK = False
     return _FIXTURE_OK
@@ -254,5 +295,18 @@ def check_shared_state(ctx: Ctx, files: List[str]):
     findings, n = _scan(ctx.index, ctx.summ, relfiles, scope)
     for rule, file, func, construct, msg, line in findings:
         ctx.bad(rule, file, func, construct, msg, line)
+    # G.3 on the summaries the rules used (helpers spliced in: a helper that fills a list it is handed is local state there)
+    ctx.rule("G.3", "no in-place change of an argument (aliasing / input mutation)", 1)
+    n3 = 0
+    for q, sm_ in list(ctx.summ._cache.items()):
+        if sm_.module.relpath not in relfiles or not isinstance(sm_.node, ast.FunctionDef):
+            continue
+        n3 += 1
+        for e, pname, tgt in _input_mutations(sm_.qual, sm_):
+            fn = sm_.qual.split(":")[-1]
+            ctx.bad("G.3", sm_.module.relpath, fn, f"{show(e.term)[:70]}",
+                    f"{fn} changes its argument `{pname}` in place ({show(tgt)[:60]}): the caller's object is different after the call, so "
+                    f"whatever uses it next (or a second call with the same object) sees the altered state", e.lineno)
+    ctx.ok("G.3", f"{len(relfiles)} anchor file(s)", f"{n3} summarised functions scanned; positive fixture reported")
     ctx.ok("G.1", f"{len(relfiles)} anchor file(s)", f"{n} functions scanned; positive fixture reported")
     ctx.ok("G.2", f"{len(relfiles)} anchor file(s)", "classes of the anchor files scanned; positive fixture reported")
